@@ -471,7 +471,10 @@ class Lexer:
                         raise CklSyntaxError(
                             "Hex int literal without digits", here
                         )
-                    token = str(int(token.replace("_", ""), 16))
+                    try:
+                        token = str(int(token.replace("_", ""), 16))
+                    except ValueError:
+                        raise CklSyntaxError("Invalid hex int literal", here)
                     self.tokens.append(Token(token, "int", here))
                     token = ""
                     pos -= 1
@@ -490,9 +493,11 @@ class Lexer:
                         raise CklSyntaxError(
                             "Binary int literal without digits", here
                         )
-                    self.tokens.append(
-                        Token(str(int(token.replace("_", ""), 2)), "int", here)
-                    )
+                    try:
+                        token = str(int(token.replace("_", ""), 2))
+                    except ValueError:
+                        raise CklSyntaxError("Invalid binary int literal", here)
+                    self.tokens.append(Token(token, "int", here))
                     token = ""
                     pos -= 1
                     updatepos = False
